@@ -715,6 +715,9 @@ func (c *Ctx) readerVerbatim(rule string) {
 			if _, isLocal := fa.X.(*ssa.Alloc); !isLocal {
 				continue
 			}
+			if _, isParam := st.Val.(*ssa.Parameter); isParam {
+				continue // the page name the module asked for, not a submitted value
+			}
 			if fn := fieldName(fa); fn == "PID" || fn == "PhoneNumber" {
 				continue // identifiers: normalising them is the integrator's/reader's call, not a secret
 			}
